@@ -81,6 +81,10 @@ type ent struct {
 	K  string `json:"k"`
 	C  int    `json:"c"`
 	Ck uint64 `json:"ck"`
+	// Chg: the change id VirtualReadDir reported for a child directory
+	// when the caller asked for it; -1 otherwise (only meaningful in the
+	// "list" of a readdir call).
+	Chg int `json:"chg"`
 }
 
 type mapEnt struct {
@@ -153,6 +157,8 @@ type call struct {
 	List   []ent      `json:"list"`
 	List2  []ent      `json:"list2"`
 	More   bool       `json:"more"`
+	Oak    string     `json:"oak"`  // lookup: file type in the attributes returned with the child ("" if none)
+	Ochg   int        `json:"ochg"` // lookup of a directory with the change id requested: the value returned (-1: none)
 	Cb     []cbRec    `json:"cb"`
 	Rm     []int      `json:"rm"`
 	Proj   []dirProj  `json:"proj"`
@@ -409,6 +415,7 @@ func (w *world) instantiate(spec []child) (map[path.Component]virtual.InitialChi
 type rawEnt struct {
 	name   string
 	cookie uint64
+	chg    int
 	kind   string
 	dir    virtual.PrepopulatedDirectory
 	leaf   virtual.Leaf
@@ -417,7 +424,7 @@ type rawEnt struct {
 func (w *world) resolve(raw []rawEnt) []ent {
 	out := []ent{}
 	for _, r := range raw {
-		e := ent{N: r.name, K: r.kind, Ck: r.cookie, C: -1}
+		e := ent{N: r.name, K: r.kind, Ck: r.cookie, C: -1, Chg: r.chg}
 		if r.dir != nil {
 			e.C = w.bindDir(r.dir, -1)
 		} else if r.leaf != nil {
@@ -430,9 +437,10 @@ func (w *world) resolve(raw []rawEnt) []ent {
 
 // pageReporter accepts at most cap entries.
 type pageReporter struct {
-	cap  int
-	ents []rawEnt
-	more bool
+	cap    int
+	locked bool // the change id was requested
+	ents   []rawEnt
+	more   bool
 }
 
 func (r *pageReporter) ReportEntry(nextCookie uint64, name path.Component, c virtual.DirectoryChild, attributes *virtual.Attributes) bool {
@@ -440,10 +448,13 @@ func (r *pageReporter) ReportEntry(nextCookie uint64, name path.Component, c vir
 		r.more = true
 		return false
 	}
-	e := rawEnt{name: name.String(), cookie: nextCookie}
+	e := rawEnt{name: name.String(), cookie: nextCookie, chg: -1}
 	if d, l := c.GetPair(); d != nil {
 		e.kind = "d"
 		e.dir, _ = d.(virtual.PrepopulatedDirectory)
+		if r.locked {
+			e.chg = int(attributes.GetChangeID())
+		}
 	} else {
 		e.kind = kindOf(attributes.GetFileType())
 		e.leaf = l
